@@ -268,35 +268,29 @@ def entering(ctx, b, tb, bi, x, site):
 
 
 def wrapper_validity(ctx, b, tb, bi, param):
-    """A wrapper that validates every element of its vector parameter before constructing (decoder path)."""
+    """A wrapper that validates every element of its vector parameter before constructing (decoder path).
+    Any universally quantified form is accepted: all(closure), !any(closure), or a loop that bails on the first bad element."""
     F = ctx.F
-    def guard(t):
-        if t[0] != 'call' or call_name(t) != 'all':
-            return False
-        return strip_sites(elem_source(t[2][0])) == param and t[2][1][0] == 'closure'
-    gs = find_terms(b, tb, guard)
+    gs = forall_guards(F, b, tb, [bi], lambda c: c == param)
     if not gs:
         return   # plain pass-through; callers judged
-    clo = gs[0][2][1]
-    def patom(name):
-        return lambda t: t[0] == 'call' and call_name(t) == name and strip_sites(t[2][0]) == ('param', 2)
-    a1 = closure_atoms(F, clo[1], patom('is_subject_assertion'))
-    a2 = closure_atoms(F, clo[1], patom('is_subject_obscured'))
     site = ctx.site(b, bi)
-    if not a1 or not a2:
-        ctx.fail('C04.4', site, 'element validation closure does not test assertion-or-obscured', key='C04.4|wrapper_atoms|' + b.path)
+    problems = []
+    for g in gs:
+        def patom(name, g=g):
+            return lambda t: t[0] == 'call' and call_name(t) == name and strip_sites(t[2][0]) == g.elem
+        a1 = g.atoms(patom('is_subject_assertion'))
+        a2 = g.atoms(patom('is_subject_obscured'))
+        if not a1 or not a2:
+            problems.append('element validation does not test assertion-or-obscured (%s)' % g.describe())
+            continue
+        bad = forall_table(g, [a1[0], a2[0]], lambda v: v[0] or v[1])
+        if bad:
+            problems.append('element validation is not assertion|obscured: %s (%s)' % (bad[:3], g.describe()))
+            continue
+        ctx.ok('C04.4', site, 'construction only after every element passed is_subject_assertion(a) | is_subject_obscured(a): %s; %s' % (g.describe(), g.info))
         return
-    bad = []
-    for va in (False, True):
-        for vo in (False, True):
-            vals, _ = closure_return_values(F, clo[1], {a1[0]: va, a2[0]: vo})
-            if vals != {va or vo}:
-                bad.append(((va, vo), vals))
-    ok, info = guard_dominates(b, tb, [bi], guard, True)
-    if bad or not ok:
-        ctx.fail('C04.4', site, 'decoder-side validation is not all(elements, assertion|obscured) guarding the construction: %s %s' % (bad, info), key='C04.4|wrapper|' + b.path)
-    else:
-        ctx.ok('C04.4', site, 'construction dominated by all(elements, |a| is_subject_assertion(a) | is_subject_obscured(a)); ' + info)
+    ctx.fail('C04.4', site, 'decoder-side validation is not "every element is assertion|obscured" guarding the construction: %s' % '; '.join(problems), key='C04.4|wrapper|' + b.path)
 
 
 def growth(ctx, b, tb, bi, base, new, site):
